@@ -91,8 +91,8 @@ def main():
     sh("git apply -R patch.diff", cwd=wt)
     rc_without, o_without = sh("cargo test --offline --test seed_demo 2>&1", cwd=wt)
     sh("git apply patch.diff", cwd=wt)
-    meta["demo_without_change"] = ("passes" if rc_without == 0 else "FAILS (unexpected)") if not inverted else ("rejected by the compiler" if rc_without != 0 and "E0277" in o_without else "ACCEPTED (unexpected)")
-    demo_ok = (rc_with != 0 and rc_without == 0) if not inverted else (rc_with == 0 and rc_without != 0 and "E0277" in o_without)
+    meta["demo_without_change"] = ("passes" if rc_without == 0 else "FAILS (unexpected)") if not inverted else ("rejected by the compiler" if rc_without != 0 and "error[E" in o_without else "ACCEPTED (unexpected)")
+    demo_ok = (rc_with != 0 and rc_without == 0) if not inverted else (rc_with == 0 and rc_without != 0 and "error[E" in o_without)
     confirmed = meta["suite_with_change"]["failed"] == 0 and meta["suite_with_change"]["passed"] >= 134 and demo_ok
     meta["confirmed"] = confirmed
     shutil.copy(os.path.join(wt, "patch.diff"), os.path.join(out, "patch.diff"))
